@@ -227,8 +227,8 @@ def decorate_insertion(rng, d, k):
     d.pop("hide", None)
     if r < 0.2:
         d["hide"] = True
-    elif r < 0.3:
-        d["hide"] = rng.choice([False, None, 1, "true"])
+    elif r < 0.4:
+        d["hide"] = rng.choice([False, None, 1, 1, "true"])
     if rng.random() < 0.35:
         d.pop("id", None)
     return d
@@ -287,10 +287,14 @@ def gen_dim_transforms(rng, v, axis, opp, strand):
     ins = gen_insertions(rng, v, axis)
     if ins is not None:
         r = rng.random()
-        if r < 0.55:
+        if r < 0.5:
             td["insertions"] = ins
-        elif r < 0.8:
+        elif r < 0.75:
             view = ins
+        elif r < 0.9:
+            # both: the transform-level list replaces the view-level one entirely
+            view = ins
+            td["insertions"] = gen_insertions(rng, v, axis) or []
     if axis == "items" and v.kind == "mr" and rng.random() < 0.5:
         td["insertions"] = gen_mr_hide_insertions(rng, v)
     if rng.random() < 0.4:
@@ -327,8 +331,10 @@ def gen_patches(rng, vars_):
                 elif r < 0.18:
                     patches.append({"dim": raw, "where": "item", "elem": j, "key": "name", "value": None})
             elif v.kind in ("cat", "cat_date", "logical", "mr", "ca"):
-                if r < 0.08:
+                if r < 0.06:
                     patches.append({"dim": raw, "where": "elem", "elem": j, "key": "name", "value": ""})
+                elif r < 0.08:
+                    patches.append({"dim": raw, "where": "elem", "elem": j, "key": "name", "value": 0})
                 elif r < 0.14:
                     patches.append({"dim": raw, "where": "elem", "elem": j, "key": "name", "value": None})
                 elif r < 0.18:
@@ -395,7 +401,7 @@ def library_orders(case, tr):
         out = []
         for p in cube.partitions:
             ro = common.call_impl(lambda: p.row_order())
-            co = common.call_impl(lambda: p.column_order()) if hasattr(p, "column_order") else None
+            co = common.call_impl(lambda: p.column_order()) if type(p).__name__ == "_Slice" else None
             out.append([ro, co] if co is not None else [ro])
         return out
     except Exception:  # noqa
@@ -427,7 +433,7 @@ def observe_dim(dim):
 def observe_part(p):
     """public metadata outputs per axis + scalars"""
     g = common.call_impl
-    is_slice = hasattr(p, "column_labels")
+    is_slice = type(p).__name__ == "_Slice"     # (hasattr would EVALUATE the lazyproperty)
     rows = {"order": g(lambda: p.row_order()), "labels": g(lambda: p.row_labels), "codes": g(lambda: p.row_codes),
             "aliases": g(lambda: p.row_aliases), "fills": g(lambda: p.rows_dimension_fills),
             "dim_name": g(lambda: p.rows_dimension_name), "dim_description": g(lambda: p.rows_dimension_description),
@@ -576,7 +582,7 @@ def model_check(case, louts, findings, ctx, cube=None):
             if not close(scal["table_name"], tm["table_name"]):
                 findings.append({"kind": "model", "locus": "meta.part.table_name",
                                  "detail": "k=%d impl=%s model=%s" % (k, scal["table_name"], tm["table_name"])})
-        elif table is None and hasattr(p, "column_labels") and scal["table_name"] is not None:
+        elif table is None and type(p).__name__ == "_Slice" and scal["table_name"] is not None:
             findings.append({"kind": "model", "locus": "meta.part.table_name", "detail": "2-D slice has table name %r" % (scal["table_name"],)})
     return cube
 
